@@ -122,8 +122,11 @@ class Trans:
 
 
 class ThreadTS:
-    def __init__(self, tname, ex, entry_fn, args):
-        """args: list of values for _1.._n of entry_fn; z3 consts among them become free 'arg' slots"""
+    def __init__(self, tname, ex, entry_fn, args, nown=1, init_owned=None):
+        """args: list of values for _1.._n of entry_fn; z3 consts among them become free 'arg' slots.
+        init_owned: {slot: (off32, size32)} ranges the thread holds at the start."""
+        self.nown = nown
+        self.init_owned = init_owned or {}
         self.t = tname
         self.ex = ex
         self.entry_fn = ex.p.fn(entry_fn)
@@ -136,6 +139,7 @@ class ThreadTS:
         self.RES_VAL = z3.BitVec("%s!RES_VAL" % tname, 64)
         self.RES_OK = z3.Bool("%s!RES_OK" % tname)
         self.tvars = {}
+        self.const_names = set()
         self.panics = []
 
     def fid_name(self, fid):
@@ -235,6 +239,13 @@ class ThreadTS:
                     fr = Frame(self.entry_fn, ("T",), {})
                     for i, a in enumerate(self.args):
                         fr.locals[i + 1] = a
+                    for j in range(self.nown):
+                        if j in self.init_owned:
+                            o, sz = self.init_owned[j]
+                            fr.locals[sym.OWN_BASE + j] = Tup([z3.BoolVal(True), o, o + sz, o, o + sz])
+                        else:
+                            z = bv(0, 32)
+                            fr.locals[sym.OWN_BASE + j] = Tup([z3.BoolVal(False), z, z, z, z])
                     ends = self.ex.run([fr], [])
                     p.op = {"kind": "nop"}
                     p.desc = "start"
@@ -267,5 +278,144 @@ class ThreadTS:
                     elif e.kind == "unreachable":
                         self.trans.append(Trans(p.id, g, {}, UNREACH, e.info))
             if not changed:
+                self.analyse()
                 return self
         raise Unsupported("slot shapes did not stabilise")
+
+    # ------------------------------------------------------------------ liveness + register allocation
+    def own_slot(self, j, field):
+        """template variable of bookkeeping field (0 live, 1 lo, 2 hi, 3 plo, 4 phi) of own-slot j"""
+        sort = z3.BoolSort() if field == 0 else z3.BitVecSort(32)
+        return self.slot(("T",), sym.OWN_BASE + j, "%d." % field, sort)
+
+    def analyse(self):
+        consts = set(str(a) for a in getattr(self, "arg_names", []))
+        tv_by_name = self.tvars
+        cache = {}
+
+        def vars_of(term):
+            key = term.get_id()
+            if key in cache:
+                return cache[key]
+            out = set()
+            seen = set()
+            stack = [term]
+            while stack:
+                t = stack.pop()
+                i = t.get_id()
+                if i in seen:
+                    continue
+                seen.add(i)
+                if z3.is_const(t) and t.decl().kind() == z3.Z3_OP_UNINTERPRETED:
+                    n = str(t)
+                    if n in tv_by_name and n not in self.const_names:
+                        out.add(n)
+                else:
+                    stack.extend(t.children())
+            cache[key] = out
+            return out
+
+        def vals_vars(v):
+            out = set()
+            _, leaves = flatten(v)
+            for _, term in leaves:
+                out |= vars_of(term)
+            return out
+
+        always = set()
+        for j in range(self.nown):
+            for f in range(5):
+                always.add(str(self.own_slot(j, f)))
+        use_op = {}
+        for p in self.by_id.values():
+            u = set()
+            if p.op and p.op.get("args"):
+                for a in p.op["args"]:
+                    u |= vals_vars(a)
+            use_op[p.id] = u | always
+        live = {pid: set(u) for pid, u in use_op.items()}
+        out_tr = {}
+        for tr in self.trans:
+            out_tr.setdefault(tr.src, []).append(tr)
+        changed = True
+        while changed:
+            changed = False
+            for pid in live:
+                acc = set(use_op[pid])
+                for tr in out_tr.get(pid, ()):
+                    acc |= vars_of(tr.guard)
+                    ups = {str(k): v for k, v in tr.updates.items()}
+                    dst_live = live.get(tr.dst, always if tr.dst >= DONE else set())
+                    for sname in dst_live:
+                        if sname in ups:
+                            acc |= vars_of(ups[sname])
+                        else:
+                            acc.add(sname)
+                if acc != live[pid]:
+                    live[pid] = acc
+                    changed = True
+        self.live = live
+        self.always_live = always
+        # interference graph + greedy colouring per sort: every slot keeps one register for its whole life
+        names = sorted(set().union(*live.values())) if live else []
+        inter = {n: set() for n in names}
+        for pid, L in live.items():
+            for a in L:
+                inter[a] |= L
+        # a slot written by a transition while another slot is live at the destination interferes with it
+        for tr in self.trans:
+            dst_live = live.get(tr.dst, always if tr.dst >= DONE else set())
+            for k in tr.updates:
+                n = str(k)
+                if n in inter and n in dst_live:
+                    inter[n] |= dst_live
+        # copy coalescing: slots related by a plain move (callee local <- caller local, ...) share a
+        # register when their lifetimes do not interfere, so that the move disappears from the step relation
+        parent = {n: n for n in names}
+
+        def find(x):
+            while parent[x] != x:
+                parent[x] = parent[parent[x]]
+                x = parent[x]
+            return x
+
+        members = {n: {n} for n in names}
+        cinter = {n: set(inter[n]) - {n} for n in names}
+        copies = []
+        for tr in self.trans:
+            dst_live = live.get(tr.dst, always if tr.dst >= DONE else set())
+            for k, term in tr.updates.items():
+                n = str(k)
+                if n in dst_live and z3.is_const(term) and term.decl().kind() == z3.Z3_OP_UNINTERPRETED:
+                    m = str(term)
+                    if m in parent and n in parent and m != n and tv_by_name[m].sort() == tv_by_name[n].sort():
+                        copies.append((n, m))
+        for (a, b) in copies:
+            ra, rb = find(a), find(b)
+            if ra == rb:
+                continue
+            if members[ra] & cinter[rb] or members[rb] & cinter[ra]:
+                continue
+            parent[rb] = ra
+            members[ra] |= members[rb]
+            cinter[ra] |= cinter[rb]
+        self.reg_of = {}
+        self.regs = {}  # sort key -> count
+        roots = sorted(set(find(n) for n in names), key=lambda r: -len(cinter[r]))
+        class_reg = {}
+        for r in roots:
+            sk = str(tv_by_name[r].sort())
+            used = set()
+            for m in cinter[r]:
+                rm = find(m)
+                if rm in class_reg and class_reg[rm][0] == sk:
+                    used.add(class_reg[rm][1])
+            i = 0
+            while i in used:
+                i += 1
+            class_reg[r] = (sk, i)
+            self.regs[sk] = max(self.regs.get(sk, 0), i + 1)
+        for n in names:
+            self.reg_of[n] = class_reg[find(n)]
+        self.sort_of = {str(tv_by_name[n].sort()): tv_by_name[n].sort() for n in names}
+        return self
